@@ -84,7 +84,7 @@ pub fn run(seed: u64, thorough: bool, out_dir: &std::path::Path) -> Out {
     let mut files: Vec<CaseFile> = (0..shards).map(|i| { let mut cf = CaseFile::new(out_dir, &format!("cases_{:02}", i), header); cf.group("rules", "rcase", "check_rcase"); cf }).collect();
     let mut descs: Vec<BTreeMap<String, Vec<Value>>> = (0..shards).map(|_| BTreeMap::new()).collect();
     let ft = ckb_systemtime::faketime();
-    let n_ctx = if thorough { 120 } else { 16 };
+    let n_ctx = hx_common::shard_share(if thorough { 120 } else { 16 });
     let mut case_no = 0usize;
     for ci in 0..n_ctx {
         let window = *rng.pick(&[(2u64, 4u64), (2, 5), (1, 3), (2, 10)]);
